@@ -364,6 +364,6 @@ def install(sess):
         values = k.get("values", a[1] if len(a) > 1 else None)
         arr = np.asarray(values) if not isinstance(values, (list, tuple)) else np.concatenate([np.asarray(x) for x in values])
         if arr.dtype.kind in "iu" and len(arr):
-            if sum(int(x) ** 2 for x in arr.tolist()) > np.iinfo(np.int64).max: return "A-int64: the squares of the integer values (and their sum) fit 64 bits - the kernel squares and accumulates in the values' own dtype"
+            pass      # (the cast to float64 before squaring was repaired in /repo: integer squares no longer need to fit 64 bits)
     sess.wrap("groupby_lib.groupby.numba", "group_sum_squares", requires=pre_ss)
     sess.wrap("groupby_lib.groupby.core", "GroupBy.apply")
